@@ -259,6 +259,81 @@ def run_dyn_stage(ctx, count, dis):
                     queue_head=[[float(a), float(b)] for a, b in res[cases[0].cid]["queue"][:3]]))
 
 
+def oracle_rf(ctx, c, r):
+    """`rfm->apply(); rfm->applyToAll(ps)` for every RF map main() can build: the charge of the blob put on particle 0 sits in the two
+    columns next to the particle with the particle's weights, the kick moves column i by offs_k[i] (interpolation with >= 3 points
+    reproduces first moments while the support is inside), so the centre of charge moves by the particle's own interpolation of the
+    SAME step's table.  Compared after every step.  The allowance admits any particle transport that evaluates this step's kick
+    between the two mesh columns more finely than the straight line does (second difference of this step's table), and float rounding."""
+    n = c.n
+    evaluated = 0
+    later = 0
+    alive, maps = True, 0
+    allow = Fraction(0)
+    for k in range(min(c.steps, len(r["rfpos"]))):
+        if c.renew > 0 and k > 0 and k % c.renew == 0:
+            alive, maps, allow = True, 0, Fraction(0)
+        px0, py0 = r["pre"][k][0]
+        if maps == 0 and (isinstance(px0, str) or isinstance(py0, str) or not (4 <= px0 <= n - 5 and 4 <= py0 <= n - 5)):
+            alive = False
+        maps += 1
+        for pi, (x, y) in enumerate(r["rfpos"][k]):
+            if isinstance(x, str) or isinstance(y, str) or not (0 <= x <= n - 1 and 0 <= y <= n - 1):
+                ctx.violation("impl-oracle", "tracked particle leaves the grid under the RF map (%s, step %d)" % (c.style(), k),
+                              case=dict(c.replay(), step=k, particle=pi), observed=[str(x), str(y)], expected="0 <= x,y <= %d" % (n - 1),
+                              sig=dict(kind="rfblob", clause="inside", linear=c.linear, dynamic=c.dynamic))
+                return False
+        px, py = r["rfpos"][k][0]
+        margin = 4 + 2 * maps          # the hat's two cells + two cells per kick along the energy axis, and slack
+        if not (margin <= py <= n - 1 - margin and 2 <= px <= n - 3):
+            alive = False
+        if not alive:
+            continue
+        s0, sx, sy = r["rfmom"][k]
+        if any(isinstance(v, str) for v in r["rfmom"][k]) or s0 == 0:
+            ctx.violation("impl-oracle", "blob lost or not finite under the RF map (%s)" % c.style(), case=dict(c.replay(), step=k),
+                          observed=[str(v) for v in r["rfmom"][k]], sig=dict(kind="rfblob", clause="finite"))
+            return False
+        cx, cy = sx / s0, sy / s0
+        offs = r["offs"][k]
+        i0 = int(px)
+        curv = max(abs(offs[i - 1] - 2 * offs[i] + offs[i + 1]) for i in range(max(1, i0 - 1), min(n - 2, i0 + 2) + 1))
+        allow += curv / 4
+        tol = 8 * U * n * (maps + 1) + allow
+        if abs(cx - px) > tol or abs(cy - py) > tol:
+            xf = px - i0
+            same = py0 - ((1 - xf) * offs[i0] + xf * offs[min(i0 + 1, n - 1)])
+            ctx.violation("impl-oracle", "the tracked particle does not follow the centre of charge of the blob it started in under the RF map "
+                          "(%s): after step %d they differ; KickMap::applyTo over the table the grid was kicked with in this step would put "
+                          "the particle at energy coordinate %s" % (c.style(), k, float(same)),
+                          case=dict(c.replay(), step=k),
+                          observed=dict(centroid=[float(cx), float(cy)], particle=[float(px), float(py)],
+                                        modulation_of_this_step=[float(v) for v in r["queue"][k]] if k < len(r["queue"]) else None),
+                          expected="equal within %g cells" % float(tol),
+                          sig=dict(kind="rfblob", clause="centroid", linear=c.linear, dynamic=c.dynamic))
+            return False
+        evaluated += 1
+        if k > 0:
+            later += 1
+    ctx.case_done(("rfblob", c.cid), evaluated >= 4 and later >= 3)
+    return True
+
+
+def run_rf_stage(ctx, count, dis):
+    cases = tc.gen_rf(ctx, count)
+    res = tc.run_rf(ctx, cases)
+    for c in cases:
+        d = tc.compare_rf(c, res[c.cid])
+        if d:
+            dis.append(dict(case=c.replay(), detail=d[:3], sig=dict(kind="rfblob", stage="correspondence", what=d[0]["what"])))
+        ctx.evaluations += 1
+        oracle_rf(ctx, c, res[c.cid])
+    c = cases[0]
+    ctx.sample(dict(kind="rfblob", id=c.cid, setup=c.style(), n=c.n, steps=c.steps,
+                    queue_head=[[float(a), float(b)] for a, b in res[c.cid]["queue"][:3]],
+                    particle0=[[float(x), float(y)] for x, y in (l[0] for l in res[c.cid]["rfpos"][:3])]))
+
+
 def run_load_stage(ctx, count, dis):
     """main()'s loading of the tracking file through PhaseSpace::x / y: generated definitions against the implementation, and
     the oracle: whatever the file holds, the particle starts inside [0, n-1]^2"""
@@ -396,8 +471,11 @@ def run_program_fp2(ctx, count):
     run_program(ctx, count, mode="fp2")
 
 
-def run_program_rfmod(ctx, count):
-    """inovesa with RF phase modulation (or RF phase noise) and a tracked particle started on the centre of charge: main() calls
+def run_program_rfmod(ctx, count, linear=True):
+    """(linear=False, family st3kick: the same with the SINUSOIDAL RF, `--LinearRF false`: the bunch is short against the RF wave length, so the kick is
+    affine to well below the oracle's half cell of slack; a particle transport that evaluates the RF with other parameters than the same step's grid
+    table - construction-time phase, unit amplitude - leaves the centre of charge by the modulation's kick.)
+    inovesa with RF phase modulation (or RF phase noise) and a tracked particle started on the centre of charge: main() calls
     `rfm->apply()` then `rfm->applyToAll(trackme)`, so the particle must get the same step's kick as the grid.  With linear RF,
     no wake and weak damping the maps are affine and the recorded track (/Particles/data: the mesh point below the particle)
     must follow the recorded centre of charge (/BunchPosition, /EnergyAverage; same normalised units) within one cell."""
@@ -419,7 +497,7 @@ def run_program_rfmod(ctx, count):
                     f.write("%r %r\n" % (q, p))
             h5 = os.path.join(td, "out.h5")
             cmd = ["timeout", "120", tg["inovesa"], "--gui", "false", "-s", str(n), "-N", str(N), "-T", repr(T), "-n", "1", "-f", "8000",
-                   "--LinearRF", "true", "-Z", "", "--UseCSR", "false", "-I", "1e-6", "--tracking", tf, "--FPTrack", str(i % 2),
+                   "--LinearRF", "true" if linear else "false", "-Z", "", "--UseCSR", "false", "-I", "1e-6", "--tracking", tf, "--FPTrack", str(i % 2),
                    "-o", h5]
             if noise:
                 cmd += ["--RFPhaseSpread", repr(2.5 * amp)]
@@ -427,7 +505,7 @@ def run_program_rfmod(ctx, count):
                 cmd += ["--RFPhaseModAmplitude", repr(amp), "--RFPhaseModFrequency", repr(fmod)]
             r = subprocess.run(cmd, capture_output=True, text=True, env=env, cwd=td)
             case = dict(kind="program-rfmod", n=n, steps_per_Ts=N, rotations=T, noise=noise, amplitude_deg=amp, fmod=fmod, particles=pts,
-                        cmd=" ".join(cmd[2:]))
+                        linear_rf=linear, cmd=" ".join(cmd[2:]))
             if r.returncode != 0 or not os.path.exists(h5):
                 ctx.violation("impl-oracle", "inovesa failed with RF modulation and tracking (rc=%d)" % r.returncode, case=case,
                               observed=(r.stdout + r.stderr)[-600:], sig=dict(kind="program-rfmod", clause="ran"))
@@ -470,8 +548,8 @@ def run_program_rfmod(ctx, count):
                 if not ok:
                     break
             ctx.extra.setdefault("program_rfmod_runs", []).append(dict(n=n, noise=noise, records=nrec, largest_energy_change_of_one_step_in_cells=float(moved)))
-            ctx.case_done(("program-rfmod", i, n, noise), moved >= 2)
-            ctx.count("program-rfmod:%s" % ("noise" if noise else "modulation"))
+            ctx.case_done(("program-rfmod", i, n, noise, linear), moved >= 2)
+            ctx.count("program-rfmod:%s%s" % ("noise" if noise else "modulation", "" if linear else "-sinusoidal-rf"))
 
 
 def _h5vals(text, path="/Particles/data"):
@@ -497,7 +575,12 @@ def run(ctx, only_case=None):
                 "with exact-zero rows and subnormal cells. dyntrack cases: DynamicRFKickMap (linear, phase modulation / phase + amplitude noise from the map's own "
                 "__calcModulation with a known seed) + DriftMap driven as main() does over 12-40 steps on n = 56|64, unit hat-blob on particle 0 renewed every 4|6 "
                 "steps: per step offsets and particles against the generated apply() over the queue model, oracle blob centroid = particle while the support is inside "
-                "(non-trivial: >= 8 evaluated maps). load cases: grid->x(q), grid->y(p) against the generated PhaseSpace::x/y. Program level: 4 runs over the four FPTrack "
+                "(non-trivial: >= 8 evaluated maps). rfblob cases: every RF map main() can build (RFKickMap / DynamicRFKickMap x linear / sinusoidal constructor; "
+                "dynamic: phase modulation | phase noise | amplitude noise | all three) on n = 64|72|80, sinusoidal kick amplitude 1-2.5 cells at 0.05-0.12 rad of RF "
+                "phase per cell, driven `rfm->apply(); rfm->applyToAll(ps)` over 8-14 steps, unit hat-blob on particle 0 (within 5 columns of the synchronous column) "
+                "renewed every 3|4 steps, the kicked grid is the next step's source: per step every particle against the generated KickMap::applyTo over the table "
+                "printed after the SAME step's apply(); oracle blob centroid = particle after EVERY step within float rounding + 1/4 of the table's second "
+                "difference at the particle's columns (non-trivial: >= 4 evaluated steps, >= 3 of them after the first). load cases: grid->x(q), grid->y(p) against the generated PhaseSpace::x/y. Program level: 4 runs over the four FPTrack "
                 "values, 2 runs FPTrack 2 on a +-20 sigma grid (underflowed tails, particles on the outermost rows), 2 runs with RF phase modulation / noise: track of the "
                 "particle started at (0,0) within [-1/2, 3/2] cells of /BunchPosition, /EnergyAverage (non-trivial: a step changes the mean energy by >= 2 cells).")
     coq = vp_coq.full_check("C15", ctx, fams=("track",))
@@ -525,11 +608,19 @@ def run(ctx, only_case=None):
         oracle_blob(ctx, b, bres[b.cid])
     ctx.sample(blobs[0].replay())
     run_dyn_stage(ctx, 8 if q else 60, dis)
+    run_rf_stage(ctx, 16 if q else 120, dis)
     run_load_stage(ctx, 20 if q else 200, dis)
     run_ensembles(ctx, 6 if q else 16, 4000 if q else 20000, 400 if q else 1200)
     run_program(ctx, 4 if q else 12)
     run_program_fp2(ctx, 2 if q else 8)
     run_program_rfmod(ctx, 2 if q else 10)
+    # (family st3kick) sinusoidal RF + dynamic RF + tracking at program level, on its own PRNG (the draws of the other stages stay as they were)
+    import random as _random
+    _saved, ctx.rng = ctx.rng, _random.Random(ctx.seed * 1000003 + 107)
+    try:
+        run_program_rfmod(ctx, 2 if q else 10, linear=False)
+    finally:
+        ctx.rng = _saved
     ctx.extra["correspondence_disagreements"] = len(dis)
     ctx.assumptions += ["exact-arithmetic model; rounding handled by the exact/tolerance streams (DESIGN 3); the clamp is exact in float, so the "
                         "inside-grid theorem transfers to the float code whatever the rounding of the unclamped value",
@@ -567,5 +658,13 @@ def replay(ctx, rp):
         if d and not ctx.violations:
             ctx.violation("correspondence", "model and implementation disagree on the replayed case", case=case, observed=d[:3],
                           sig=dict(kind="dyn", stage="correspondence"), no_input=True)
+    elif case.get("kind") == "rfblob":
+        c = tc.rf_from_replay(case)
+        r = tc.run_rf(ctx, [c])
+        oracle_rf(ctx, c, r[c.cid])
+        d = tc.compare_rf(c, r[c.cid])
+        if d and not ctx.violations:
+            ctx.violation("correspondence", "model and implementation disagree on the replayed case", case=case, observed=d[:3],
+                          sig=dict(kind="rfblob", stage="correspondence"), no_input=True)
     else:
         run(ctx)
